@@ -53,6 +53,8 @@ type Plan struct {
 	MaxStep int         `json:"max_step"`
 	// AcceptFail: this many accept calls of the servers fail transiently (the connection stays in the backlog)
 	AcceptFail int `json:"accept_fail,omitempty"`
+	// ListenFail: the servers' listen call fails (address in use): Run returns, nobody can connect
+	ListenFail bool `json:"listen_fail,omitempty"`
 }
 
 type SvcOpts struct {
